@@ -129,8 +129,13 @@ class TablePot:
     def function(self, x):
         return self.tab[np.ascontiguousarray(np.asarray(x, dtype=float)).tobytes()][0]
 
+    work = None          # when set: every call hands back THIS array, refilled (a surface with a preallocated work array)
+
     def function_gradient(self, x):
         e, g = self.tab[np.ascontiguousarray(np.asarray(x, dtype=float)).tobytes()]
+        if self.work is not None and self.work.shape == g.shape:
+            self.work[:] = g
+            return e, self.work
         return e, g.copy()
 
 
@@ -516,6 +521,8 @@ def gradient_case(rng, uniform_k=False, nmax=9):
 def impl_gradient(n, band, e, g, ks):
     pot = TablePot()
     pot.load(band, e, g)
+    if (n + len(band[0])) % 2 == 0:
+        pot.work = np.zeros(len(band[0]))      # half of the cases: the surface returns its one work array every time
     neb = new_neb(pot, ks[0] if ks else 1.0, 1.0, 50)
     neb.n_images = n
     neb.force_constants = np.array(ks, dtype=float)
